@@ -105,6 +105,14 @@ Theorem C09_sub_sub_compose : forall d a1 a2,
                contains (d_box d) x && contains a1 x && contains (translate_rect a2 (tl a1')) x).
 Proof. exact sub_sub_compose. Qed.
 
+(* whatever the nesting depth, a drawable shows the root ImageRaw's pixel() at the accumulated offset, and only
+   points inside the root's box *)
+Theorem C09_d_pixel_root : forall d p,
+  d_wf d ->
+  d_pixel d p = (if contains (d_box d) p then raw_pixel (d_root d) (padd p (d_origin d)) else None) /\
+  (contains (d_box d) p = true -> contains (origin_box (ir_size (d_root d))) (padd p (d_origin d)) = true).
+Proof. exact d_pixel_root. Qed.
+
 Theorem C09_with_center_spec : forall d c,
   0 <= sw (d_size d) -> 0 <= sh (d_size d) ->
   let i := image_with_center d c in
